@@ -74,26 +74,17 @@ Proof.
 Qed.
 
 (* ---------------------------------------------------------------- (3) unhashable keys *)
-(* no blank struct field of an uncomparable type (struct keyFor skips blank fields, and nothing
-   else looks at the struct type's comparable flag: see blank_unhashable_no_throw_refuted) *)
-Fixpoint nbu (t : kty) : bool :=
-  match t with
-  | TArray _ e => nbu e
-  | TStruct fs => (fix go (fs : list (bool * kty)) : bool :=
-                     match fs with [] => true | (bl, ft) :: r => (negb bl || comparable ft) && nbu ft && go r end) fs
-  | _ => true
-  end.
-
+(* a dynamic type that is uncomparable only through a blank field: $ifaceKeyFor throws (0da9cd0) *)
 Definition blank_slice : dyn :=
   {| d_id := 7; d_str := of_string "struct { a int; _ []int }"; d_shape := TStruct [(false, TInt); (true, TNoKey)] |}.
 
-Lemma blank_unhashable_no_throw_refuted :
+Lemma blank_unhashable_throws :
   wt TIface (VDyn blank_slice (VStruct [VInt 1; VOpaque])) = true /\
   hashable TIface (VDyn blank_slice (VStruct [VInt 1; VOpaque])) = false /\
-  fst (key_for nts_dummy true TIface (VDyn blank_slice (VStruct [VInt 1; VOpaque])) st0) <> None.
-Proof. repeat split; try reflexivity. vm_compute. discriminate. Qed.
+  fst (key_for nts_dummy true TIface (VDyn blank_slice (VStruct [VInt 1; VOpaque])) st0) = None.
+Proof. repeat split; reflexivity. Qed.
 
-(* zero-length arrays of an uncomparable element type now throw *)
+(* zero-length arrays of an uncomparable element type throw *)
 Lemma zero_length_array_throws : forall nts by_id n l s, key_for nts by_id (TArray n TNoKey) (VArr l) s = (None, s).
 Proof. reflexivity. Qed.
 
@@ -102,82 +93,43 @@ Variable nts : Z -> str.
 Variable by_id : bool.
 Notation K := (key_for nts by_id).
 
-(* a value of an uncomparable type has no key: keyFor throws *)
-Lemma incomparable_throws : forall x t s,
-  wt t x = true -> comparable t = false -> nbu t = true -> fst (K t x s) = None.
-Proof.
-  induction x using val_ind'; intros t u W C Z; destruct t; cbn in W; try discriminate W; cbn in C; try discriminate C;
-    try reflexivity.
-  - (* array: typ.comparable is false *)
-    rewrite K_arr. now rewrite C.
-  - (* struct: the first uncomparable field is not blank *)
-    rewrite K_struct.
-    enough (E : fst (keys_struct (fun ft x s => K ft x s) (fun k => escape (key_str k)) fs l u) = None).
-    { destruct (keys_struct _ _ fs l u) as [[?|] ?]; [discriminate E | reflexivity]. }
-    revert fs u W C Z. induction H as [|x l Hx _ IH]; intros fs u W C Z.
-    + destruct fs as [|[? ?] ?]; [discriminate C | discriminate W].
-    + destruct fs as [|[bl ft] fs]; [discriminate W|].
-      cbn [fields1] in W. apply andb_true_iff in W as [Wx W].
-      cbn [nbu] in Z. apply andb_true_iff in Z as [Zx Z]. apply andb_true_iff in Zx as [Zb Zx].
-      cbn [keys_struct].
-      destruct (comparable ft) eqn:Cf.
-      * cbn [andb] in C. destruct bl; [exact (IH fs u W C Z)|].
-        destruct (K ft x u) as [[k|] s1]; [|reflexivity].
-        specialize (IH fs s1 W C Z).
-        destruct (keys_struct _ _ fs l s1) as [[?|] ?]; [discriminate IH | reflexivity].
-      * rewrite orb_false_r in Zb. apply negb_true_iff in Zb. subst bl.
-        specialize (Hx ft u Wx Cf Zx). destruct (K ft x u) as [[k|] s1]; [discriminate Hx | reflexivity].
-Qed.
-
-Fixpoint all_dyn_nbu (v : val) : bool :=
-  match v with
-  | VDyn d x => nbu (d_shape d) && all_dyn_nbu x
-  | VArr l => all1 all_dyn_nbu l
-  | VStruct l => all1 all_dyn_nbu l
-  | _ => true
-  end.
-
-(* unhashable_throws: a key that Go refuses to hash makes keyFor throw (every map operation
-   computes the key first, or checks the nil map first and throws there) *)
+(* unhashable_throws: for a comparable static key type, a key that Go refuses to hash makes keyFor
+   throw (every map operation computes the key first, or checks the nil map first and throws there) *)
 Theorem unhashable_throws : forall x t s,
-  wt t x = true -> nbu t = true -> all_dyn_nbu x = true -> hashable t x = false -> fst (K t x s) = None.
+  wt t x = true -> comparable t = true -> hashable t x = false -> fst (K t x s) = None.
 Proof.
-  induction x using val_ind'; intros t u W Zt Z Hh; destruct t; cbn in W; try discriminate W;
+  induction x using val_ind'; intros t u W Ct Hh; destruct t; cbn in W; try discriminate W;
     cbn in Hh; try discriminate Hh; try reflexivity.
   - (* dyn *)
-    cbn [all_dyn_nbu] in Z. apply andb_true_iff in Z as [Zd Z].
     rewrite K_dyn.
-    destruct (comparable (d_shape d)) eqn:C; cbn [andb] in Hh.
-    + specialize (IHx (d_shape d) u W Zd Z Hh). destruct (K (d_shape d) x u) as [[k|] s1]; [discriminate IHx | reflexivity].
-    + pose proof (incomparable_throws x (d_shape d) u W C Zd) as E.
-      destruct (K (d_shape d) x u) as [[k|] s1]; [discriminate E | reflexivity].
+    destruct (comparable (d_shape d)) eqn:C; cbn [andb] in Hh; [|reflexivity].
+    specialize (IHx (d_shape d) u W C Hh). destruct (K (d_shape d) x u) as [[k|] s1]; [discriminate IHx | reflexivity].
   - (* array *)
-    apply andb_true_iff in W as [_ W]. cbn [all_dyn_nbu] in Z. cbn [nbu] in Zt.
-    rewrite K_arr. destruct (comparable t); [|reflexivity].
+    apply andb_true_iff in W as [_ W]. cbn [comparable] in Ct.
+    rewrite K_arr. rewrite Ct.
     enough (E : fst (keys_arr (fun x s => K t x s) (fun _ k => escape (key_str k)) l u) = None).
     { destruct (keys_arr _ _ l u) as [[?|] ?]; [discriminate E | reflexivity]. }
-    revert u W Z Hh. induction H as [|x l Hx _ IH]; intros u W Z Hh; [discriminate Hh|].
-    cbn [all1] in W, Z, Hh. apply andb_true_iff in W as [Wx W]. apply andb_true_iff in Z as [Zx Z].
+    revert u W Hh. induction H as [|x l Hx _ IH]; intros u W Hh; [discriminate Hh|].
+    cbn [all1] in W, Hh. apply andb_true_iff in W as [Wx W].
     cbn [keys_arr].
     destruct (hashable t x) eqn:Hx'.
     + cbn [andb] in Hh. destruct (K t x u) as [[k|] s1]; [|reflexivity].
-      specialize (IH s1 W Z Hh). destruct (keys_arr _ _ l s1) as [[?|] ?]; [discriminate IH | reflexivity].
-    + specialize (Hx t u Wx Zt Zx Hx'). destruct (K t x u) as [[k|] s1]; [discriminate Hx | reflexivity].
+      specialize (IH s1 W Hh). destruct (keys_arr _ _ l s1) as [[?|] ?]; [discriminate IH | reflexivity].
+    + specialize (Hx t u Wx Ct Hx'). destruct (K t x u) as [[k|] s1]; [discriminate Hx | reflexivity].
   - (* struct *)
-    cbn [all_dyn_nbu] in Z. rewrite K_struct.
+    rewrite K_struct.
     enough (E : fst (keys_struct (fun ft x s => K ft x s) (fun k => escape (key_str k)) fs l u) = None).
     { destruct (keys_struct _ _ fs l u) as [[?|] ?]; [discriminate E | reflexivity]. }
-    revert fs u W Zt Z Hh. induction H as [|x l Hx _ IH]; intros fs u W Zt Z Hh.
+    revert fs u W Ct Hh. induction H as [|x l Hx _ IH]; intros fs u W Ct Hh.
     + destruct fs as [|[[|] ?] ?]; [discriminate Hh | discriminate W | discriminate W].
     + destruct fs as [|[bl ft] fs]; [discriminate W|].
-      cbn [fields1] in W. cbn [all1] in Z. cbn [nbu] in Zt.
-      apply andb_true_iff in W as [Wx W]. apply andb_true_iff in Z as [Zx Z].
-      apply andb_true_iff in Zt as [Zt0 Zt]. apply andb_true_iff in Zt0 as [Zb Zf].
-      cbn [keys_struct]. destruct bl; cbn [fieldsnb] in Hh; [exact (IH fs u W Zt Z Hh)|].
+      cbn [fields1] in W. apply andb_true_iff in W as [Wx W].
+      cbn [comparable] in Ct. apply andb_true_iff in Ct as [Cf Ct].
+      cbn [keys_struct]. destruct bl; cbn [fieldsnb] in Hh; [exact (IH fs u W Ct Hh)|].
       destruct (hashable ft x) eqn:Hx'.
       * cbn [andb] in Hh. destruct (K ft x u) as [[k|] s1]; [|reflexivity].
-        specialize (IH fs s1 W Zt Z Hh). destruct (keys_struct _ _ fs l s1) as [[?|] ?]; [discriminate IH | reflexivity].
-      * specialize (Hx ft u Wx Zf Zx Hx'). destruct (K ft x u) as [[k|] s1]; [discriminate Hx | reflexivity].
+        specialize (IH fs s1 W Ct Hh). destruct (keys_struct _ _ fs l s1) as [[?|] ?]; [discriminate IH | reflexivity].
+      * specialize (Hx ft u Wx Cf Hx'). destruct (K ft x u) as [[k|] s1]; [discriminate Hx | reflexivity].
 Qed.
 End Unhashable.
 
